@@ -166,7 +166,8 @@ def parse_unit(text, W):
     bufs = {"inp": 0, "out": 1}
     sizes = [None, None]
     names = ["inp", "out"]
-    decl_re = re.compile(r"\t" + re.escape(T) + r" ([A-Za-z_][A-Za-z_0-9]*)\[(\d+)\];")
+    # intermediate buffers are thread-local statics (F27): one copy per thread, not on the stack
+    decl_re = re.compile(r"\tstatic __thread " + re.escape(T) + r" ([A-Za-z_][A-Za-z_0-9]*)\[(\d+)\];")
     while i < len(lines):
         m = decl_re.fullmatch(lines[i])
         if not m:
